@@ -585,11 +585,15 @@ func main() {
 	nbatch := flag.Int("nbatch", 150, "systematically enumerated critical-section batches to run (0 = all)")
 	sthreads := flag.Int("sthreads", 16, "goroutines of a heavy stress run")
 	sops := flag.Int("sops", 1200, "operations per goroutine of a heavy stress run")
+	shardedOnly := flag.Bool("sharded", false, "sharded variants only (used by C17)")
 	flag.Parse()
 	rng := rand.New(rand.NewSource(*seed))
 	semap.VerifGate = gate
 
 	variants := []string{"single", "wide", "widex"}
+	if *shardedOnly {
+		variants = []string{"wide", "widex", "wide"}
+	}
 	shardsL := []int{1, 2, 7, 73}
 	w := tr.Create(*out)
 	if *plans != "" {
